@@ -46,11 +46,14 @@ def starts (serial : Bool) : Nat → List Item → List Nat
   | o, .g b :: t => starts serial (o + b.length) t
   | o, .m r :: t => o :: starts serial (o + (r.enc serial).length) t
 
+/-- linear scan: at every offset that is not a message start no marker begins -/
+def markerFreeScan (st : List Nat) : Nat → Bytes → Bool
+  | _, [] => true
+  | o, x :: t => (st.contains o || !anyMarkerAt (x :: t)) && markerFreeScan st (o + 1) t
+
 /-- neither frame marker occurs anywhere except at the start of each message (incl. straddling boundaries) -/
 def markerFree (serial : Bool) (items : List Item) : Bool :=
-  let d := render serial items
-  let st := starts serial 0 items
-  (List.range d.length).all fun o => st.contains o || !anyMarkerAt (d.drop o)
+  markerFreeScan (starts serial 0 items) 0 (render serial items)
 
 def allWf (serial : Bool) (items : List Item) : Bool :=
   items.all fun | .g _ => true | .m r => r.wf serial
